@@ -165,7 +165,7 @@ safe Version [C03]
 
 /*@
 module upgrade
-props C16
+props C01 C16
 use common core
 use common vote
 dialect neovm
@@ -196,11 +196,11 @@ func _deploy(data, isUpdate)
   // version window: oldest supported <= deployed version < new version
   ensures [C16] isUpdate ==> PrevVersion <= lastarg(data) && lastarg(data) < Version
   // the supply counter survives every upgrade path
-  ensures [C16] isUpdate ==> store.opt("MainnetGAS") == old(store).opt("MainnetGAS")
+  ensures [C01,C16] isUpdate ==> store.opt("MainnetGAS") == old(store).opt("MainnetGAS")
   // balances survive every upgrade path: from a version with the old layout (below 0.20.0) every account record k moves to "a"++k,
   // from a newer one the account records are untouched
-  ensures [C16] isUpdate && lastarg(data) < 20000 ==> forall a Bytes {store.opt("a" ++ a)} :: len(a) == 20 && old(store).has(a) ==> store.opt("a" ++ a) == old(store).opt(a)
-  ensures [C16] isUpdate && lastarg(data) < 20000 ==> forall a Bytes {store.opt(a)} :: len(a) == 20 ==> !store.has(a)
-  ensures [C16] isUpdate && lastarg(data) >= 20000 ==> forall a Bytes {store.opt("a" ++ a)} :: len(a) == 20 ==> store.opt("a" ++ a) == old(store).opt("a" ++ a)
-  ensures [C16] isUpdate ==> notifs == old(notifs)
+  ensures [C01,C16] isUpdate && lastarg(data) < 20000 ==> forall a Bytes {store.opt("a" ++ a)} :: len(a) == 20 && old(store).has(a) ==> store.opt("a" ++ a) == old(store).opt(a)
+  ensures [C01,C16] isUpdate && lastarg(data) < 20000 ==> forall a Bytes {store.opt(a)} :: len(a) == 20 ==> !store.has(a)
+  ensures [C01,C16] isUpdate && lastarg(data) >= 20000 ==> forall a Bytes {store.opt("a" ++ a)} :: len(a) == 20 ==> store.opt("a" ++ a) == old(store).opt("a" ++ a)
+  ensures [C01,C16] isUpdate ==> notifs == old(notifs)
 @*/
